@@ -1,6 +1,7 @@
 package props
 
 import (
+	"context"
 	"errors"
 	"fmt"
 	"io"
@@ -47,6 +48,33 @@ type faultPlan struct {
 	storeOpenHiccups, hiccupsFired int
 	// seekFails: the source's files refuse to seek
 	seekFails bool
+	// flavour: which error value a failing SOURCE call reports (index into c11flavours; 0 = the harness's own value)
+	flavour int
+	// wgate, if set, is called before every Write to a file of the cache store
+	wgate func(name string)
+}
+
+// c11flavours: error values a failing source call reports. What a failed fill must leave behind does not depend on which
+// error ended it. (Store-side calls keep the harness's value: ErrExist from Mkdir, ErrNotExist from Remove and
+// ErrNotImplemented from Chmod are answers the cache is right to tolerate.)
+var c11flavours = []error{
+	errFill,
+	io.ErrUnexpectedEOF,
+	fmt.Errorf("source: %w", hackpadfs.ErrNotImplemented),
+	fmt.Errorf("request: %w", context.Canceled),
+	fmt.Errorf("gone: %w", hackpadfs.ErrNotExist),
+	fmt.Errorf("denied: %w", hackpadfs.ErrPermission),
+	fmt.Errorf("conflict: %w", hackpadfs.ErrExist),
+	fmt.Errorf("body: %w", io.EOF),
+	io.ErrShortWrite,
+	io.ErrClosedPipe,
+}
+
+func (p *faultPlan) errFor(site string) error {
+	if strings.HasPrefix(site, "source.") {
+		return c11flavours[p.flavour%len(c11flavours)]
+	}
+	return errFill
 }
 
 func (p *faultPlan) call(site string) error {
@@ -60,7 +88,7 @@ func (p *faultPlan) call(site string) error {
 		if p.persistent && strings.HasPrefix(site, "store.") {
 			p.down = true
 		}
-		return errFill
+		return p.errFor(site)
 	}
 	if p.down && strings.HasPrefix(site, "store.") {
 		return errFill
@@ -236,6 +264,9 @@ func (f *faultStoreFile) Chmod(m hackpadfs.FileMode) error {
 	return hackpadfs.ChmodFile(f.f, m)
 }
 func (f *faultStoreFile) Write(p []byte) (int, error) {
+	if g := f.plan.wgate; g != nil {
+		g(f.name)
+	}
 	if err := f.plan.call("store.Write"); err != nil {
 		return 0, err
 	}
@@ -277,6 +308,8 @@ type c11case struct {
 	Rep   int    `json:"rep,omitempty"`
 	// Source: "" (fills every buffer) | "short" (at most 200 bytes per Read) | "partial" (the failing Read delivers bytes with its error)
 	Source string `json:"source,omitempty"`
+	// Flavour: the error value a failing source call reports (see c11flavours)
+	Flavour int `json:"flavour,omitempty"`
 }
 
 func c11cases(env *core.Env) []c11case {
@@ -293,6 +326,19 @@ func c11cases(env *core.Env) []c11case {
 					cs = append(cs, c11case{Part: "fault", Size: size, Store: store, Mode: uint32(m)})
 				}
 			}
+		}
+	}
+	for fl := 1; fl < len(c11flavours); fl++ {
+		for _, size := range []int{513, 1500, 5000} {
+			for _, store := range []string{"minimal", "full"} {
+				cs = append(cs, c11case{Part: "fault", Size: size, Store: store, Flavour: fl})
+			}
+		}
+		cs = append(cs, c11case{Part: "fault", Size: 1500, Store: "full", Source: "partial", Flavour: fl}, c11case{Part: "fault", Size: 1500, Store: "minimal-writeback", Flavour: fl})
+	}
+	for _, size := range []int{1500, 5000} {
+		for _, store := range []string{"minimal", "full"} {
+			cs = append(cs, c11case{Part: "pair-after-failure", Size: size, Store: store})
 		}
 	}
 	for i := 0; i < env.Pick(600, 6000); i++ {
@@ -390,6 +436,8 @@ func c11run(env *core.Env, idx int) core.CaseResult {
 		c11faultGated(env, cs, idx, &res)
 	case "stampede":
 		c11stampede(env, cs, idx, &res)
+	case "pair-after-failure":
+		c11pairAfterFailure(env, cs, &res)
 	default:
 		c11concurrent(env, cs, idx, &res)
 	}
@@ -431,6 +479,7 @@ func c11fault(env *core.Env, cs c11case, res *core.CaseResult) {
 			return
 		}
 		w.plan.failAt = k
+		w.plan.flavour = cs.Flavour
 		w.plan.persistent = persistent
 		w.plan.shortReads, w.plan.partialRead, w.plan.seekFails = cs.Source == "short", cs.Source == "partial", cs.Source == "seekfail"
 		var f hackpadfs.File
@@ -491,6 +540,132 @@ func c11fault(env *core.Env, cs c11case, res *core.CaseResult) {
 			if err == nil && string(got) != string(want) {
 				res.Violate(fmt.Sprintf("C11|%s|fault:%s|later-open-partial", cs.Store, w.plan.fired), fmt.Sprintf("after a fill that failed at %s (call #%d), re-open #%d delivered %d of %d bytes without an error", w.plan.fired, k, again+1, len(got), len(want)), wit)
 				break
+			}
+		}
+	}
+}
+
+// lockstep lets two copies advance chunk by chunk together: a party waits until the other one has arrived too (or a short
+// while, in case the other copy is over or the two are not running at the same time at all - scheduling only, no verdict
+// depends on the clock).
+type lockstep struct {
+	mu      sync.Mutex
+	n, gen  int
+	ch      chan struct{}
+	meets   int
+	timeout time.Duration
+}
+
+func (b *lockstep) wait() {
+	b.mu.Lock()
+	if b.ch == nil {
+		b.ch = make(chan struct{})
+	}
+	gen := b.gen
+	b.n++
+	if b.n == 2 {
+		b.n = 0
+		b.gen++
+		b.meets++
+		close(b.ch)
+		b.ch = make(chan struct{})
+		b.mu.Unlock()
+		return
+	}
+	ch := b.ch
+	b.mu.Unlock()
+	select {
+	case <-ch:
+	case <-time.After(b.timeout):
+		b.mu.Lock()
+		if b.gen == gen && b.n > 0 {
+			b.n--
+		}
+		b.mu.Unlock()
+	}
+}
+
+// c11pairAfterFailure: a fill that failed inside its copy (every source.Read and store.Write of it in turn, and no failure at
+// all), then the first Opens of two OTHER files at the same time with their copies in lockstep (a copy's store Write waits
+// until the other copy has read its chunk as well): each of the two is served, and cached, with its own bytes only.
+func c11pairAfterFailure(env *core.Env, cs c11case, res *core.CaseResult) {
+	size := cs.Size
+	mk := func(base byte, mul, mod int) []byte {
+		b := make([]byte, size)
+		for i := range b {
+			b[i] = base + byte((i*mul)%mod)
+		}
+		return b
+	}
+	files := map[string][]byte{"d/e/file": c11data(size), "d/e/x": mk('A', 3, 23), "d/e/y": mk('0', 7, 10)}
+	clean, err := newC11World(cs.Store, files)
+	if err != nil {
+		res.Inconclusive = err.Error()
+		return
+	}
+	if _, err := readAll(clean.cache, "d/e/file"); err != nil {
+		res.Inconclusive = "fault-free fill failed: " + err.Error()
+		return
+	}
+	sites := append([]string(nil), clean.plan.log...)
+	for k := -1; k < len(sites); k++ {
+		if k >= 0 && sites[k] != "source.Read" && sites[k] != "store.Write" && sites[k] != "store.Close" {
+			continue
+		}
+		w, err := newC11World(cs.Store, files)
+		if err != nil {
+			res.Inconclusive = err.Error()
+			return
+		}
+		w.plan.failAt = k
+		if p := core.Recover(func() { _, _ = readAll(w.cache, "d/e/file") }); p != "" {
+			continue // (the fault part reports panics of the faulted Open)
+		}
+		w.plan.mu.Lock()
+		w.plan.failAt = -1
+		w.plan.mu.Unlock()
+		ls := &lockstep{timeout: 30 * time.Millisecond}
+		w.plan.wgate = func(string) { ls.wait() }
+		names := []string{"d/e/x", "d/e/y"}
+		got := make([][]byte, 2)
+		errs := make([]error, 2)
+		panics := make([]string, 2)
+		var wg sync.WaitGroup
+		for i := range names {
+			wg.Add(1)
+			go func(i int) {
+				defer wg.Done()
+				panics[i] = core.Recover(func() { got[i], errs[i] = readAll(w.cache, names[i]) })
+			}(i)
+		}
+		wg.Wait()
+		w.plan.wgate = nil
+		res.Evals++
+		res.Count("pair_runs", 1)
+		res.Count("pair_chunks_in_lockstep", ls.meets)
+		if ls.meets > 0 {
+			res.NTKeys = append(res.NTKeys, core.Hash([]any{cs, k}))
+		}
+		site := "none"
+		if k >= 0 {
+			site = sites[k]
+		}
+		wit := map[string]any{"case": cs, "failed_fill_fault_index": k, "site": site, "chunks_in_lockstep": ls.meets}
+		for i, name := range names {
+			want := files[name]
+			if panics[i] != "" {
+				res.Violate("C11|pair-after-failure|panic", fmt.Sprintf("the first Open of %q (at the same time as the first Open of the other file, after a fill of a third file failed at %s) panicked: %s", name, site, panics[i]), wit)
+				continue
+			}
+			if errs[i] == nil && string(got[i]) != string(want) {
+				res.Violate("C11|pair-after-failure|first-open-wrong-bytes", fmt.Sprintf("after a fill of d/e/file that failed at %s (call #%d), d/e/x and d/e/y were opened for the first time at the same time: the Open of %q delivered bytes that are not the file's (%d bytes, first difference at %d)", site, k, name, len(got[i]), firstDiff(string(got[i]), string(want))), wit)
+			}
+			for again := 0; again < 2; again++ {
+				b, err := readAll(w.cache, name)
+				if err == nil && string(b) != string(want) {
+					res.Violate("C11|pair-after-failure|cached-wrong-bytes", fmt.Sprintf("after a fill of d/e/file that failed at %s (call #%d), d/e/x and d/e/y were opened for the first time at the same time: a later Open of %q serves bytes that are not the file's (%d bytes, first difference at %d)", site, k, name, len(b), firstDiff(string(b), string(want))), wit)
+					break
+				}
 			}
 		}
 	}
